@@ -47,6 +47,7 @@ def rworld (topo : Option (List Nat)) : World M RV where
   int := .int
   str := .str
   list := .list
+  newList vs := pure (.list vs)
   tuple := .list
   global n := if n == "nx" then pure .modNx else if n == "list" then pure .listFn else throw "NameError"
   truthy
